@@ -22,9 +22,15 @@ package handlers
 //@ func (*baseHandler).handleHiddenMessage
 //@   assigns *h.done
 //@ func (*baseHandler).Write
+//@   assigns h.receiveBuf, *h.done, g_dispStr, g_printedStr
 //@   requires [buffer-has-no-delimiter] !contains(h.receiveBuf.content, "\n") && !contains(h.receiveBuf.content, "\xac")
 //@   ghost-init g_dispStr == ""
 //@   loop 1 invariant [framed] g_dispStr + h.receiveBuf.content == old(h.receiveBuf.content) + frame(str(p[0:rangeindex+1]))
 //@   loop 1 invariant [buffer-has-no-delimiter] !contains(h.receiveBuf.content, "\n") && !contains(h.receiveBuf.content, "\xac") && -1 <= rangeindex && rangeindex < len(p)
 //@   ensures [all-consumed] n == len(p) && isnil(err)
 //@   ensures [framed] g_dispStr + h.receiveBuf.content == old(h.receiveBuf.content) + frame(str(p))
+
+// One handler (and so one reassembly buffer) per connection.
+//@ func NewClientHandler
+//@   assigns nothing
+//@   ensures [fresh] result != nil && result.baseHandler.server == server && result.baseHandler.receiveBuf.content == ""
